@@ -79,8 +79,29 @@ def doPrSend (args : List String) : String :=
     | _, _, _, _ => "bad-args"
   | _ => "bad-args"
 
+/-- `reconfig <hex chunk value> …`: RE-CONFIG chunks handled one after the other by a fresh endpoint with channels 0..5;
+per chunk the answers in order: `sn:result:channels reset` -/
+def doReconfig (args : List String) : String :=
+  match args.mapM unhex with
+  | some chunks =>
+    let chans : List UInt16 := [0, 1, 2, 3, 4, 5]
+    let showEv : RcEv → String
+      | .duplicate sn => s!"{sn}:0"
+      | .performed sn _ => s!"{sn}:1"
+    let hitOf : RcEv → List UInt16
+      | .duplicate _ => []
+      | .performed _ ids => if ids.isEmpty then chans else chans.filter (fun c => ids.contains c)
+    let r := chunks.foldl (fun (st : UInt32 × List String) v =>
+      let x := rcRun st.1 (rcParams v.length v)
+      let hit := chans.filter (fun c => x.2.any (fun e => (hitOf e).contains c))
+      let line := if x.2.isEmpty then "-" else " ".intercalate (x.2.map showEv)
+      (x.1, st.2 ++ [line ++ " reset=" ++ (if hit.isEmpty then "-" else ",".intercalate (hit.map toString))])) ((0xFFFFFFFF : UInt32), [])
+    " | ".intercalate r.2
+  | none => "bad-args"
+
 def handle (stream : String) (args : List String) : String :=
   match stream with
+  | "reconfig" => doReconfig args
   | "prsend" => doPrSend args
   | "rx" => C01.doRx args
   | "dcep" => doDcep args
